@@ -11,7 +11,7 @@
 From Coq Require Import List ZArith NArith Bool Arith Lia Permutation Sorting.Sorted.
 From PQ Require Import Sort.Model Sort.ListLemmas Sort.ColProofs Sort.PageProofs
      Sort.TypedProofs Sort.CmpProofs Sort.BufProofs Sort.OrderProofs Sort.Instances
-     Sort.Repeated Sort.RepeatedProofs.
+     Sort.Repeated Sort.RepeatedProofs Sort.Kinds.
 From PQ Require Merge.Model Merge.AbstractProofs.
 From PQ Require Import Sort.Writer Sort.WriterProofs Sort.WriterInstance.
 Import ListNotations.
@@ -182,6 +182,68 @@ Proof. exact (C10_sorted_after_swaps sval lt_sval cmp_sval lt_sval_cmp cmp_sval_
 
 Print Assumptions C10_sval_less_is_comparator.
 Print Assumptions C10_sval_sorted_after_swaps.
+
+(** * The kinds of the sorting columns
+
+    The statements above hold of every kind of sorting column whose Compare
+    is the comparison of the integers its values denote (Sort/Kinds.v: BOOLEAN,
+    the signed and unsigned integers of every width, DATE, TIME, TIMESTAMP,
+    DECIMAL on integers and on two's complement byte strings, FLOAT and
+    DOUBLE without NaN): for ANY [key] into the integers, "Compare = the sign
+    of key a - key b" and "Less = key a < key b" meet the hypotheses.  (The
+    byte string kinds are the [VB] values of the instance above.)  In the
+    correspondence runs a column of such a kind holds the images of the
+    integers the oracle's model compares under a strictly increasing map (so
+    [key (emb z) ] orders as [z]); that the Go code compares each kind as its
+    key says is decided there by the harness's own comparator. *)
+Theorem C10_keyed_less_is_comparator : forall (V : Type) (key : V -> Z) schema sorting ops i j,
+  schema <> [] -> sorting_ok schema sorting -> Forall (op_ok V schema) ops ->
+  let b := reach V schema sorting ops in
+  i < buffer_len V b -> j < buffer_len V b ->
+  (buffer_less V (lt_key V key) b i j = true <->
+   (compare_rows V (cmp_key V key) schema sorting (buffer_row V b i) (buffer_row V b j) < 0)%Z).
+Proof.
+  exact (fun V key => C10_less_is_comparator V (lt_key V key) (cmp_key V key) (lt_key_cmp V key) (cmp_key_opp V key)).
+Qed.
+
+Theorem C10_keyed_less_strict_weak_order : forall (V : Type) (key : V -> Z) schema sorting ops,
+  schema <> [] -> sorting_ok schema sorting -> Forall (op_ok V schema) ops ->
+  let b := reach V schema sorting ops in less_swo V (lt_key V key) b (buffer_len V b).
+Proof.
+  exact (fun V key => C10_less_strict_weak_order V (lt_key V key) (cmp_key V key)
+                        (lt_key_cmp V key) (cmp_key_opp V key) (cmp_key_trans V key)).
+Qed.
+
+Theorem C10_keyed_sorted_after_swaps : forall (V : Type) (key : V -> Z) schema sorting ops l,
+  schema <> [] -> sorting_ok schema sorting -> Forall (op_ok V schema) ops ->
+  let b' := reach V schema sorting (ops ++ swap_ops V l) in
+  sorted_by_less V (lt_key V key) b' (buffer_len V b') ->
+  Permutation (buffer_rows V b') (buffer_rows V (reach V schema sorting ops)) /\
+  Permutation (buffer_rows V b') (written V schema ops) /\
+  forall i j, i <= j -> j < length (buffer_rows V b') ->
+    (compare_rows V (cmp_key V key) schema sorting (nth i (buffer_rows V b') []) (nth j (buffer_rows V b') []) <= 0)%Z.
+Proof.
+  exact (fun V key => C10_sorted_after_swaps V (lt_key V key) (cmp_key V key)
+                        (lt_key_cmp V key) (cmp_key_opp V key) (cmp_key_trans V key)).
+Qed.
+
+Print Assumptions C10_keyed_less_is_comparator.
+Print Assumptions C10_keyed_less_strict_weak_order.
+Print Assumptions C10_keyed_sorted_after_swaps.
+
+(** The keys order values as the parquet format says where a comparison of
+    the raw bits would not: INT(8|16|32, signed) keys (32 bits each) read as unsigned
+    numbers put -1 above 149 (the keys say below); 2^63 as
+    UINT(64) is above 1; -0.0 = +0.0 and -1.5 < 1.5 as DOUBLE; the two's
+    complement bytes ff fe (-2) are below 00 01 (1) as DECIMAL. *)
+Example C10_ex_kind_keys :
+  (cmp_key N (key_signed 32) 4294967295%N 149%N < 0 /\ cmp_key N (key_unsigned 32) 4294967295%N 149%N > 0)%Z /\
+  (cmp_key N (key_unsigned 64) 9223372036854775808%N 1%N > 0 /\ cmp_key N (key_signed 64) 9223372036854775808%N 1%N < 0)%Z /\
+  (cmp_key N (key_float 64) 9223372036854775808%N 0%N = 0 /\
+   cmp_key N (key_float 64) 13832806255468478464%N 4609434218613702656%N < 0)%Z /\
+  (cmp_key (list N) key_decimal [255; 254]%N [0; 1]%N < 0 /\ Search.Model.cmp_bytes [255; 254]%N [0; 1]%N > 0)%Z /\
+  (cmp_key bool key_bool false true < 0)%Z.
+Proof. vm_compute. repeat split; reflexivity. Qed.
 
 (** * Repeated columns (column_buffer_repeated.go)
 
